@@ -571,10 +571,55 @@ func (vc *VC) callByContract(st *State, spec *FuncSpec, callee *types.Func, sig 
 		st.assume("(>= " + na.S + " " + pre.alloc + ")")
 		st.alloc = na.S
 	}
+	// elems(p): the callee overwrites the elements of slice parameter p in place: the caller's slice gets new,
+	// unknown elements (same length); ensures clauses relate them to old(p)
+	postVars := vars
+	var oldVars map[string]Term
+	for _, w := range spec.Writes {
+		ce, ok := w.Expr.(*ast.CallExpr)
+		if !ok {
+			continue
+		}
+		if id, ok := ce.Fun.(*ast.Ident); !ok || id.Name != "elems" {
+			continue
+		}
+		pname := ce.Args[0].(*ast.Ident).Name
+		ov, ok := vars[pname]
+		if !ok {
+			vc.specFail(w.Expr, "elems() of unknown parameter %s", pname)
+		}
+		if oldVars == nil {
+			oldVars = map[string]Term{}
+			postVars = map[string]Term{}
+			for k, v := range vars {
+				postVars[k] = v
+			}
+		}
+		oldVars[pname] = ov
+		ns := vc.fresh("elems_"+pname, ov.T)
+		st.assume(vc.u.WF(ns.S, ov.T, st.alloc))
+		st.assume(eq(vc.sliceLen(ns), vc.sliceLen(ov)))
+		st.assume(eq(vc.sliceNN(ns), vc.sliceNN(ov)))
+		postVars[pname] = ns
+		pi := -1
+		for i := 0; i < sig.Params().Len(); i++ {
+			if names[idx+i] == pname {
+				pi = i
+			}
+		}
+		if ce2, ok := call.(*ast.CallExpr); ok && pi >= 0 && pi < len(ce2.Args) {
+			switch ast.Unparen(ce2.Args[pi]).(type) {
+			case *ast.Ident, *ast.SelectorExpr, *ast.IndexExpr:
+				vc.assign(st, ce2.Args[pi], ns)
+			default:
+				vc.fail(call, "elems(): argument %s is not an assignable place", exprString(ce2.Args[pi]))
+			}
+		}
+	}
 	// results
 	var rets []Term
 	pre0 := &SpecEnv{vc: vc, st: pre, old: pre, vars: vars, pkg: cpkg, allocOld: pre.alloc}
-	post := &SpecEnv{vc: vc, st: st, old: pre, vars: vars, pkg: cpkg, allocOld: pre.alloc}
+	post := &SpecEnv{vc: vc, st: st, old: pre, vars: postVars, oldVars: oldVars, pkg: cpkg, allocOld: pre.alloc}
 	rv := map[string]Term{}
 	for i := 0; i < sig.Results().Len(); i++ {
 		rt := vc.ts.apply(sig.Results().At(i).Type())
@@ -724,6 +769,10 @@ func (vc *VC) evalWriteTarget(env *SpecEnv, e ast.Expr, text string, add func(h,
 				}
 				return
 			}
+			if id, ok := ce.Fun.(*ast.Ident); ok && id.Name == "elems" {
+				// elems(p): the elements of slice parameter p (slices are values here; handled at the call site)
+				return
+			}
 			if id, ok := ce.Fun.(*ast.Ident); ok && id.Name == "contents" {
 				// contents(e): the map / channel object e refers to
 				x := env.eval(ce.Args[0])
@@ -782,7 +831,18 @@ func (vc *VC) evalWriteTarget(env *SpecEnv, e ast.Expr, text string, add func(h,
 			}
 		}
 		if se, ok := e.(*ast.SelectorExpr); ok {
-			base := env.eval(se.X)
+			var base Term
+			if id, ok := se.X.(*ast.Ident); ok && env.lookupLocal(id.Name) == nil {
+				if o := vc.lookupProgramVar(env.st, id.Name); o != nil {
+					if cell, ok := env.st.cells[o]; ok {
+						// field of an address-taken struct local: the field of its cell
+						base = cell
+					}
+				}
+			}
+			if base.S == "" {
+				base = env.eval(se.X)
+			}
 			if pt, ok := under(base.T).(*types.Pointer); ok {
 				et := vc.ts.apply(pt.Elem())
 				stt := under(et).(*types.Struct)
